@@ -72,6 +72,10 @@ THEOREMS = [
     "Verif.C09.gls_result_def",
     "Verif.C09.estimate_simple_time_scale",
     "Verif.C09.optimalPointsF_atLeastTwo",
+    "Verif.C09.det_opt_iter_default",
+    "Verif.C09.det_opt_iter_float",
+    "Verif.C09.estimate_on_kymo_disjoint",
+    "Verif.C09.estimate_on_kymo_noblur_value",
 ]
 TOL = 1e-9
 AUTO_OPS = ("optpts", "olsauto", "copyauto", "ensolsauto", "optraw")  # max_lag=None: determine_optimal_points and what is built on it
@@ -105,6 +109,36 @@ def blank_kymo(dt, px, blur):
     return _KYMOS[key]
 
 
+# Kinds of kymograph a track can live on, as far as KymoTrack.estimate_diffusion reads them (strengthening round H).  All of
+# them are made by the library itself: "array" = lumicks.pylake.kymo._kymo_from_array as it returns it (no motion blur
+# constant defined), "posdown" = that kymograph downsampled by 2 along the position axis (Kymo.downsampled_by: pixel size
+# doubles, still no blur constant), "timedown" = downsampled by 2 in time (line time doubles; the pixels are integrated over
+# disjoint sections of time: contiguous = False).  The base kymograph gets half the pixel size / line time, so that the
+# kymograph the track is attached to has exactly the requested ones (binary scaling is exact).
+KYMO_KINDS = ("array", "posdown", "timedown")
+MODEL_KIND = {"array": "noblur", "posdown": "noblur", "timedown": "disjoint"}
+
+
+def special_kymo(kind, dt, px):
+    key = (kind, dt, px)
+    if key not in _KYMOS:
+        if len(_KYMOS) > 4096:
+            _KYMOS.clear()
+        kfa = _lk()[0]
+        with warnings.catch_warnings():
+            warnings.simplefilter("ignore")
+            if kind == "array":
+                k = kfa(np.zeros((2, 4)), "r", line_time_seconds=dt, pixel_size_um=px)
+            elif kind == "posdown":
+                k = kfa(np.zeros((2, 4)), "r", line_time_seconds=dt, pixel_size_um=px / 2).downsampled_by(position_factor=2)
+            elif kind == "timedown":
+                k = kfa(np.zeros((2, 4)), "r", line_time_seconds=dt / 2, pixel_size_um=px).downsampled_by(time_factor=2)
+            else:
+                raise ValueError(kind)
+        _KYMOS[key] = k
+    return _KYMOS[key]
+
+
 def positions_of(coords, px):
     """the doubles KymoTrack computes: np.array(localization) * pixelsize"""
     return (np.array(coords, dtype=float) * px).tolist()
@@ -132,7 +166,12 @@ def make_track(call, j=None):
     _, _, KymoTrack, _ = _lk()
     frames = call["frames"] if j is None else call["frames"][j]
     coords = call["coords"] if j is None else call["coords"][j]
-    k = blank_kymo(call["dt"], call["px"], call["blur"])
+    if call.get("kymo"):
+        k = special_kymo(call["kymo"], call["dt"], call["px"])
+    elif j is not None and "dts" in call:  # a group that mixes kymographs: every track on its own one
+        k = blank_kymo(call["dts"][j], call["pxs"][j], call["blurs"][j])
+    else:
+        k = blank_kymo(call["dt"], call["px"], call["blur"])
     return KymoTrack(stored_frames(frames, call.get("fdtype")), np.array(coords, dtype=float), k, "red", 0)
 
 
@@ -247,7 +286,18 @@ def expand(case):
         # KymoTrack.estimate_diffusion as a dispatcher: one call per request (method, max_lag, localization_variance, its variance)
         for q in case["reqs"]:
             calls.append({"v": "base", "op": "est", "frames": case["frames"], "coords": case["coords"], "px": case["px"],
-                          "dt": case["dt"], "blur": case["blur"], "fdtype": case.get("fdtype"), "req": q})
+                          "dt": case["dt"], "blur": case["blur"], "fdtype": case.get("fdtype"), "req": q,
+                          **({"kymo": case["kymo"]} if case.get("kymo") else {})})
+    elif kind == "optk":
+        # determine_optimal_points(frame_idx, coordinate, max_iterations=k) called directly (it is an anchor): the iteration
+        # budget k and the storage of the frame indices (an integer type, or float64: refused) are its own parameters
+        for k in case["ks"]:
+            calls.append({"v": "base", "op": "optptsk", "frames": case["frames"], "coords": case["coords"], "px": case["px"],
+                          "dt": 1.0, "blur": 0, "fdtype": case.get("fdtype"), "k": k, "float": bool(case.get("float"))})
+    elif kind == "ensmix":
+        # a group whose tracks come from kymographs with different line times / pixel sizes / blur constants: ensemble cve
+        calls.append({"v": "base", "op": "enscvemix", "frames": case["frames"], "coords": case["coords"], "dts": case["dts"],
+                      "pxs": case["pxs"], "blurs": case["blurs"], "fdtype": case.get("fdtype")})
     elif kind == "glsupd":
         # one step of the GLS iteration on the inverse covariance matrix the library itself computes for (K, n, a, b)
         calls.append({"v": "base", "op": "glsupd", "K": case["K"], "n": case["n"], "a": case["a"], "b": case["b"], "msd": case["msd"]})
@@ -407,8 +457,25 @@ def run_call(c):
     if op == "wmean":
         w = me.weighted_mean_and_sd(np.array(c["means"], dtype=float), np.array(c["counts"], dtype=np.int64))
         return "ok " + " ".join(rat(x) for x in w)
+    if op == "optptsk":
+        tr = make_track(c)
+        pos = np.array(tr.position)
+        if pos.tolist() != positions_of(c["coords"], c["px"]):
+            return "harness-position-mismatch"
+        frames = np.array(tr.time_idx, dtype=float) if c["float"] else np.asarray(tr.time_idx)
+        ns, ni = me.determine_optimal_points(frames, pos, max_iterations=c["k"])
+        return f"ok {int(ns)} {int(ni)}"
+    if op == "enscvemix":
+        tracks = [make_track(c, j) for j in range(len(c["frames"]))]
+        for j, tr in enumerate(tracks):
+            if np.array(tr.position).tolist() != positions_of(c["coords"][j], c["pxs"][j]) or tr._line_time_seconds != c["dts"][j]:
+                return "harness-position-mismatch"
+        e = KymoTrackGroup(tracks).ensemble_diffusion("cve")
+        return f"ok {rat(e.value)} {rat(float(e.std_err) ** 2)} {int(e.num_points)} {rat(e.localization_variance)}"
     if op == "est":
         tr = make_track(c)
+        if c.get("kymo") and (np.array(tr.position).tolist() != positions_of(c["coords"], c["px"]) or tr._line_time_seconds != c["dt"]):
+            return "harness-position-mismatch"
         q = c["req"]
         e = tr.estimate_diffusion(q["method"], max_lag=q["L"], localization_variance=q["lv"],
                                   variance_of_localization_variance=q["vlv"])
@@ -522,8 +589,17 @@ def op_line(c):
     if op == "est":
         q = c["req"]
         fs, xs = enc_list(c["frames"]), rlist(positions_of(c["coords"], c["px"]))
+        if c.get("kymo"):
+            return (f"c09.estk {fs} {xs} {rat(c['dt'])} {MODEL_KIND[c['kymo']]} {q['method'].replace(' ', '~') or '-'} {opt_int(q['L'])} "
+                    f"{opt_rat(q['lv'])} {opt_rat(q['vlv'])}")
         return (f"c09.est {fs} {xs} {rat(c['dt'])} {rat(c['blur'])} {q['method'].replace(' ', '~') or '-'} {opt_int(q['L'])} "
                 f"{opt_rat(q['lv'])} {opt_rat(q['vlv'])}")
+    if op == "optptsk":
+        return (f"c09.optptsk {enc_list(c['frames'])} {rlist(positions_of(c['coords'], c['px']))} {int(c['k'])} "
+                f"{'float' if c['float'] else 'int'}")
+    if op == "enscvemix":
+        xs = "[" + ";".join(",".join(rat(x) for x in positions_of(co, px)) for co, px in zip(c["coords"], c["pxs"])) + "]"
+        return f"c09.enscvemix {enc_listlist(c['frames'])} {xs} {rlist(c['dts'])} {rlist(c['blurs'])}"
     if op == "glsupd":
         w = gls_weight(c)
         if w is None:
@@ -637,6 +713,8 @@ def agree(case, i, ia, ma):
         return True
     if op == "glsupd" and (ma == "singular" or ia == "helper-unavailable"):
         return True  # kappa*mu - lam^2 = 0 exactly (or no inverse): the step divides by zero, nothing is determined
+    if op == "optptsk" and ma == "tie":
+        return True
     if op in AUTO_OPS and ma == "tie":
         # the model reports that a sign / floor the lag search branches on is decided by the last bits of a double
         # (signTies / floorTie in the model): nothing to compare; counted in extra_coverage
@@ -647,6 +725,10 @@ def agree(case, i, ia, ma):
     m = [ptok(t) for t in ma.split()[1:]]
     if op == "msd":
         return a[0] == m[0] and a[1] == m[1] and near_list(a[2], m[2])
+    if op == "optptsk":
+        return ma == "tie" or a == m
+    if op == "enscvemix":  # value, std_err^2, num_points (the localisation variance of a mixed group is not calculated)
+        return len(a) == 4 and len(m) == 5 and a[2] == m[2] and near(a[0], m[0], m[3]) and near(a[1], m[1], m[4])
     if op in ("optpts", "optraw"):
         return a == m
     if op == "glsupd":  # change, slope, intercept, var_slope | scales of slope, intercept, var_slope
@@ -1027,6 +1109,10 @@ def est_expected_error(case, q):
     m, L, n = q["method"], q["L"], len(case["frames"])
     if m not in ("cve", "ols", "gls"):
         return "ValueError"
+    if case.get("kymo") == "timedown":  # integrated over disjoint sections of time: documented as not supported
+        return "NotImplementedError"
+    if m == "cve" and case.get("kymo") and q["lv"]:
+        return "ValueError"  # no motion blur constant and a localisation variance given: documented refusal
     if m == "cve":
         return None  # (judged by the cve ops of the track cases)
     if q["lv"] is not None or q["vlv"] is not None:
@@ -1046,6 +1132,20 @@ def oracle_est(case, calls, ia):
         exp = est_expected_error(case, q)
         if exp and a != exp:
             return f"estimate_diffusion({q['method']!r}, max_lag={q['L']}, lv={q['lv']}, vlv={q['vlv']}): expected {exp}, got {a[:60]}"
+        if q["method"] == "cve" and case.get("kymo") in ("array", "posdown") and not q["lv"]:
+            # no motion blur constant: the covariance-based estimate is still the closed form (which does not contain the blur)
+            pos = frs(positions_of(case["coords"], case["px"]))
+            cf = cve_closed_form(case["frames"], pos, case["dt"], 0, None, None)
+            if cf[0] != "ok":
+                if a != cf[0]:
+                    return f"estimate_diffusion('cve') on a kymograph without blur constant: expected {cf[0]}, got {a[:60]}"
+            else:
+                if not a.startswith("ok "):
+                    return f"estimate_diffusion('cve') on a kymograph without blur constant raised {a}"
+                v = ptok(a.split()[1])
+                if isinstance(v, float) or not near(v, cf[1], cf[3]):
+                    return ("estimate_diffusion('cve') on a kymograph without blur constant: the diffusion constant is not the "
+                            "closed-form CVE value")
         if q["L"] == 0:  # `if max_lag`: 0 means "choose", exactly like None
             twin = [b for d, b in zip(calls, ia) if d["req"] == dict(q, L=None)]
             if twin and twin[0] != a:
@@ -1123,6 +1223,20 @@ def oracle(case, ia):
         return None
     if kind == "brownian":
         return oracle_brownian(case, ia)
+    if kind == "optk":
+        n = len(case["frames"])
+        for c, a in zip(calls, ia):
+            if c["float"]:
+                if a != "TypeError":
+                    return f"determine_optimal_points with float frame indices: expected TypeError, got {a[:40]}"
+            elif c["k"] >= 1 and n <= 4:
+                if a != "RuntimeError":
+                    return f"determine_optimal_points on {n} points: expected RuntimeError, got {a[:40]}"
+            elif c["k"] >= 1 and a.startswith("ok ") and min(int(x) for x in a.split()[1:3]) < 2:
+                return f"determine_optimal_points(max_iterations={c['k']}) = {a}: a line needs at least two lags"
+        return None
+    if kind == "ensmix":
+        return oracle_ensmix(case, ia[0])
     meta = case.get("meta", {})
     S0 = sym_scales(case, calls)
     dt0 = Fr(case["dt"])
@@ -1452,6 +1566,36 @@ def oracle_ens(case, calls, ia, idx, ans, meta, S0, S):
     return None
 
 
+def oracle_ensmix(case, a):
+    """'ensemble estimates equal the documented weighted means' for a group that mixes kymographs: the ensemble CVE value is
+    the length-weighted mean of the per-track closed-form estimates (each with the line time / pixel size / blur constant of
+    its own kymograph), its variance is eq. 57 of Vestergaard et al., num_points the total number of points"""
+    per = []
+    for f, x, dt, px, R in zip(case["frames"], case["coords"], case["dts"], case["pxs"], case["blurs"]):
+        if len(f) >= 3:
+            per.append((cve_closed_form(f, frs(positions_of(x, px)), dt, R, None, None), len(f)))
+    if not per:
+        return "ensemble cve of no usable track returned an estimate" if a.startswith("ok ") else None
+    if not a.startswith("ok "):
+        return f"ensemble cve of a group that mixes kymographs raised {a}"
+    g = [ptok(t) for t in a.split()[1:]]
+    ns = [n for _, n in per]
+    if g[2] != sum(ns):
+        return f"ensemble cve (mixed kymographs): num_points {g[2]} is not the total number of points {sum(ns)}"
+    if len(per) == 1:
+        return None if near(g[0], per[0][0][1], per[0][0][3]) else "ensemble cve of one usable track is not that track's estimate"
+    xs, sc = [e[0][1] for e in per], [e[0][3] for e in per]
+    mean = sum(x * n for x, n in zip(xs, ns)) / sum(ns)
+    smean = sum(x * n for x, n in zip(sc, ns)) / sum(ns)
+    var = sum(n * (x - mean) ** 2 for x, n in zip(xs, ns)) / ((len(ns) - 1) * sum(ns))
+    svar = sum(n * (x + smean) ** 2 for x, n in zip(sc, ns)) / ((len(ns) - 1) * sum(ns))
+    if not near(g[0], mean, smean):
+        return "ensemble cve (mixed kymographs): value is not the length-weighted mean of the track estimates"
+    if isinstance(g[1], float) or not near(g[1], var, svar):
+        return "ensemble cve (mixed kymographs): variance of the value is not eq. 57 of Vestergaard et al."
+    return None
+
+
 def s_nonempty(sm):
     return sm.split()[1] != "[]"
 
@@ -1514,6 +1658,10 @@ def nontrivial(case, ia):
         return any(a.startswith("ok ") for a in ia) and any(not a.startswith("ok ") for a in ia)
     if k == "glsupd":
         return ia[0].startswith("ok ") and len(case["msd"]) >= 2
+    if k == "optk":
+        return any(a.startswith("ok ") for a in ia) or case.get("float") or len(case["frames"]) <= 4
+    if k == "ensmix":
+        return ia[0].startswith("ok ") and len(case["frames"]) >= 2
     return all(a.startswith("ok ") for a in ia)
 
 
@@ -1917,6 +2065,61 @@ def gen_session(rng, quick):
     return {"stream": "brownian", "kind": "brownian", "seed": rng.randint(0, 2**31), "mode": mode, "sims": sims}
 
 
+MIX_DTS = [1.0, 0.5, 0.25, 0.0625, 0.1, 1.7]
+
+
+def gen_optk_case(rng, nmax):
+    """determine_optimal_points with an iteration budget: tracks of 3..nmax points - short arbitrary ones and longer ones
+    without missing frames at a reduced localisation error where the search takes several steps; budgets 1, 2, 3, some
+    k <= 8 and the default 100 (the budget 0 returns the starting guess, about which nothing is stated); every fifth
+    case hands the frame indices over as float64 (refused with TypeError whatever the budget)"""
+    if rng.chance(0.5):
+        c = gen_track_case(rng, min(nmax, 24))
+        frames, coords, px = c["frames"], c["coords"], c["px"]
+    else:
+        c = gen_noisy_case(rng, nmax)
+        frames, coords, px = c["frames"], c["coords"], c["px"]
+    return {"stream": "random", "kind": "optk", "frames": frames, "coords": coords, "px": px,
+            "ks": sorted({1, 2, 3, rng.randint(4, 8), 100}), "float": rng.chance(0.2)}
+
+
+def gen_ensmix_case(rng, tmax, nmax):
+    """a group of 2..tmax tracks of unequal length that come from 2-3 different kymographs (line time and/or pixel size
+    and/or blur constant differ): ensemble cve"""
+    exact = rng.chance(0.8)
+    T = rng.choice([2, 2, 3, 4, rng.randint(2, tmax)])
+    nk = rng.choice([2, 2, 3])
+    px0, dt0, b0 = rng.choice(EXACT_PX if exact else LOOSE_PX), rng.choice(MIX_DTS), rng.choice(BLURS)
+    what = rng.choice(["dt", "dt", "px", "both", "blur"])
+    kymos = [(dt0, px0, b0)]
+    while len(kymos) < nk:
+        dt = rng.choice([d for d in MIX_DTS if d != dt0]) if what in ("dt", "both") else dt0
+        px = rng.choice([p_ for p_ in (EXACT_PX if exact else LOOSE_PX) if p_ != px0]) if what in ("px", "both") else px0
+        kymos.append((dt, px, rng.choice(BLURS) if what == "blur" or rng.chance(0.3) else b0))
+    frames, coords, which = [], [], []
+    for j in range(T):
+        n = rng.choice([rng.randint(3, nmax), rng.randint(3, nmax), rng.randint(3, 8), rng.randint(1, 3)])
+        frames.append(gen_frames(rng, n))
+        coords.append(gen_coords(rng, n, exact))
+        which.append(j % nk if j < nk else rng.randint(0, nk - 1))
+    return {"stream": "random", "kind": "ensmix", "frames": frames, "coords": coords, "exact": exact, "differs": what,
+            "dts": [kymos[w][0] for w in which], "pxs": [kymos[w][1] for w in which], "blurs": [kymos[w][2] for w in which]}
+
+
+def kymo_scope(quick):
+    """the dispatcher on the kymograph kinds of KYMO_KINDS: the 4 dispatcher tracks x 3 kinds (quick: kind cycling with the
+    track) x method in {cve, ols, gls, a wrong one} x max_lag in {None, 2} x localization_variance in {None, 0.0, 1/64} x its
+    variance in {None, 1/1024}"""
+    reqs = [{"method": m, "L": L, "lv": lv, "vlv": vlv} for m in ("cve", "ols", "gls", "mse")
+            for L in (None, 2) for lv in (None, 0.0, 1 / 64) for vlv in (None, 1 / 1024)]
+    for i, (f, x) in enumerate(EST_TRACKS):
+        for j, kind in enumerate(KYMO_KINDS):
+            if quick and j != i % 3:
+                continue
+            yield {"stream": "small-scope", "kind": "est", "frames": f, "coords": x, "px": (0.5, 0.1)[i % 2], "dt": (0.25, 0.1)[j % 2],
+                   "blur": 0, "fdtype": FDTYPES[i + j], "reqs": reqs, "kymo": kind}
+
+
 def small_scope(quick):
     """_small_scope with the ops of the automatic number of lags on every track of 4 and 5 points (4: RuntimeError)"""
     for c in _small_scope(quick):
@@ -2148,6 +2351,35 @@ def _cases(tier, rng):
                 reqs.append(dict(reqs[-1], L=None))
         yield {"stream": "random", "kind": "est", "subseed": i, "frames": c["frames"], "coords": c["coords"], "px": c["px"],
                "dt": c["dt"], "blur": c["blur"], "fdtype": sub.choice(FDTYPES), "reqs": reqs}
+    # (strengthening round H; forked after the streams above, which stay those of the earlier versions)
+    yield from kymo_scope(quick)
+    r = rng.fork("c09-kymo")  # the dispatcher on kymographs without blur constant / integrated over disjoint time windows
+    for i in range(12 if quick else 200):
+        sub = r.fork(i)
+        c = gen_track_case(sub, 20)
+        n = len(c["frames"])
+        reqs = []
+        for _ in range(4):
+            m = sub.choice(["cve", "cve", "cve", "ols", "gls", "CVE"])
+            lv = sub.choice([None, None, 0.0, c["lv"]]) if m.lower() == "cve" else sub.choice([None, None, None, c["lv"]])
+            reqs.append({"method": m, "L": sub.choice([None, None, 0, 2, 3, n - 1, n + 3]), "lv": lv,
+                         "vlv": sub.choice([None, c["vlv"]])})
+        yield {"stream": "random", "kind": "est", "subseed": i, "frames": c["frames"], "coords": c["coords"], "px": c["px"],
+               "dt": c["dt"], "blur": 0, "fdtype": sub.choice(FDTYPES), "reqs": reqs, "kymo": sub.choice(KYMO_KINDS[:2] + KYMO_KINDS)}
+    r = rng.fork("c09-optk")  # determine_optimal_points with an iteration budget / float frame indices
+    for i in range(24 if quick else 300):
+        sub = r.fork(i)
+        c = gen_optk_case(sub, 40 if quick else 100)
+        c["subseed"] = i
+        c["fdtype"] = sub.choice(FDTYPES)
+        yield c
+    r = rng.fork("c09-ensmix")  # groups that mix kymographs (line time / pixel size / blur constant): ensemble cve
+    for i in range(30 if quick else 500):
+        sub = r.fork(i)
+        c = gen_ensmix_case(sub, 8 if quick else 30, 20)
+        c["subseed"] = i
+        c["fdtype"] = sub.choice(FDTYPES)
+        yield c
     r = rng.fork("c09-glsupd")
     for i in range(60 if quick else 600):
         sub = r.fork(i)
@@ -2225,6 +2457,25 @@ def extra_coverage(results):
                     k = int(m.split()[4])
                     key = str(k) if k <= 4 else "5-9" if k < 10 else "10-29" if k < 30 else ">=30"
                     lagsearch["num_lags_chosen"][key] = lagsearch["num_lags_chosen"].get(key, 0) + 1
+    round_h = {"dispatcher_by_kymograph_kind": {}, "lag_search_by_iteration_budget": {}, "mixed_groups_by_what_differs": {}}
+    for r in results:
+        c = r["case"]
+        if c["kind"] == "est" and c.get("kymo"):
+            d_ = round_h["dispatcher_by_kymograph_kind"].setdefault(c["kymo"], {})
+            for a in r["impl"]:
+                key = "estimate" if a.startswith("ok ") else a[:24]
+                d_[key] = d_.get(key, 0) + 1
+        if c["kind"] == "optk":
+            for call, a, m in zip(expand(c), r["impl"], r["model"]):
+                key = ("float frame indices" if call["float"] else "budget 100" if call["k"] == 100 else f"budget {call['k']}" if call["k"] <= 3 else "budget 4-8")
+                d_ = round_h["lag_search_by_iteration_budget"].setdefault(key, {})
+                by100 = [x for cl, x in zip(expand(c), r["impl"]) if cl["k"] == 100]
+                out = ("tie (not compared)" if m == "tie" else a[:20] if not a.startswith("ok ") else
+                       "same as budget 100" if by100 and by100[0] == a else "budget exhausted before the fixed point")
+                d_[out] = d_.get(out, 0) + 1
+        if c["kind"] == "ensmix":
+            d_ = round_h["mixed_groups_by_what_differs"]
+            d_[c.get("differs", "?")] = d_.get(c.get("differs", "?"), 0) + 1
     for r in results:
         c = r["case"]
         if c["kind"] in ("track", "ens"):
@@ -2321,6 +2572,7 @@ def extra_coverage(results):
             "kymotrack_msd_calls_by_requested_lags_and_storage_type": all_lags,
             "identical_copies_with_automatic_number_of_lags": auto,
             "lag_search_as_run_by_the_model": lagsearch,
+            "strengthening_round_h": round_h,
             "tolerance": "1e-9 * scale (scale computed by the model from absolute values of every term)",
             "exhaustive": False,
             "exhaustive_note": "the small-scope stream enumerates its finite space completely on thorough (strided on quick); random streams do not"}
@@ -2369,7 +2621,15 @@ RULE = (
     "x 3 localization_variance x 2 variance-of-it exhaustively, random tracks with 4-6 requests, and GLS fits on tracks of 3-7 points "
     "without missing frames (exact Gauss-Jordan elimination in the model, state rounded to doubles, 1e-5 relative). Where a sign / floor / "
     "stop criterion the code branches on is decided by the last bits of a double the model answers `tie` and nothing is compared "
-    "(counted in lag_search_as_run_by_the_model). Non-trivial: a track case with >=3 points, a numeric estimate and at least one "
+    "(counted in lag_search_as_run_by_the_model). Strengthening round H - inputs of the anchored functions that tracks of one blur-calibrated "
+    "kymograph never reach: determine_optimal_points called with an iteration budget max_iterations in {1, 2, 3, one of 4..8, 100} (the budget "
+    "exhausted returns the last optimal_points pair; budget 0 = the starting guess is not asserted) and, every fifth case, with float64 frame "
+    "indices (TypeError) on short arbitrary tracks and 20-40 (thorough -100) point noisy ones (optk); the dispatcher on kymographs the LIBRARY "
+    "makes without a motion blur constant (_kymo_from_array as returned; downsampled_by(position_factor=2)) or integrated over disjoint time "
+    "windows (downsampled_by(time_factor=2)): 4 tracks x kinds x 4 methods x 2 max_lag x 3 localization_variance x 2 variances + random tracks "
+    "(cve there = the closed-form D, nan errors; a localisation variance is refused; disjoint: NotImplementedError); groups of 2-8 (thorough -30) "
+    "tracks from 2-3 kymographs that differ in line time / pixel size / both / blur constant: ensemble cve = length-weighted mean and eq. 57 "
+    "variance of the per-track closed forms, each with its own line time (ensmix). Non-trivial: a track case with >=3 points, a numeric estimate and at least one "
     "metamorphic variant; an ensemble with >=2 tracks and a numeric answer; a malformed case that raises."
 )
 TRUSTED = [
@@ -2398,8 +2658,12 @@ ASSUMPTIONS = [
     "number of points; with missing frames the two differ on the unchanged library, which warns on both paths that the automatic "
     "number of lags is then unreliable: observation, corpus auto_lags_missing_frames_observation; not asserted either when a "
     "least-squares line through leading MSD points has an exactly zero slope/intercept, i.e. a sign the heuristic branches on is rounding noise), "
-    "GLS under position scaling (absolute tolerance 1e-4 in the iteration), blur = nan kymographs, groups mixing kymographs with "
-    "different line times, recovery of D on simulated Brownian tracks (statistical, 5-sigma band on the group the simulation "
+    "GLS under position scaling (absolute tolerance 1e-4 in the iteration), ensemble OLS / ensemble MSD of groups mixing kymographs "
+    "(refused by the library), recovery of D on simulated Brownian tracks (statistical, 5-sigma band on the group the simulation "
     "returned; that the returned tracks carry the simulated line time is checked exactly, for sessions of several simulations)",
+    "strengthening round H: KymoKind (blur R / no blur constant / disjoint) and the iteration budget + storage check of determine_optimal_points are "
+    "model parameters (detOptIter, estimateOnKymo, ensembleCveMixed); theorems det_opt_iter_default/_float, estimate_on_kymo_disjoint, "
+    "estimate_on_kymo_noblur_value (the value without a blur constant is the D of _cve for EVERY admissible blur constant); the weighted mean of a "
+    "mixed group is tied and judged by the oracle, not proved; its localisation variance (nan by documentation) is not compared",
     "cve_scale needs a != 0; ols_normal_equations/ols_minimises need a non-degenerate design (K*sum(l^2) != (sum l)^2, i.e. >= 2 distinct lags)",
 ]
